@@ -13,6 +13,10 @@
 (*   | nullable(s) | enum(vals, s) | allOf(ss) | oneOf(ss) | anyOf(ss)     *)
 (*   | self  (a reference to the enclosing root schema: recursion)         *)
 (* Bounds use NONE (= 0 - 1000) for "keyword absent".                      *)
+(* A property record is [name, s, req, decl]; decl = FALSE is a name that  *)
+(* appears under `required` only (not under `properties`).                 *)
+(* Keywords of one schema object are conjunctive: `nullable` widens `type` *)
+(* only, so an `enum` beside it still has to list null (OAS 3.0.3).        *)
 (***************************************************************************)
 EXTENDS Integers, Sequences, FiniteSets, TLC
 
@@ -32,20 +36,22 @@ Pat(p, s) ==
 
 Names(m) == {m[i][1] : i \in 1..Len(m)}
 Get(m, name) == (CHOOSE i \in 1..Len(m) : m[i][1] = name)
-PropNames(S0) == {S0.props[i].name : i \in 1..Len(S0.props)}
-PropOf(S0, name) == S0.props[CHOOSE i \in 1..Len(S0.props) : S0.props[i].name = name]
+PropNames(S0) == {S0.props[i].name : i \in {j \in 1..Len(S0.props) : S0.props[j].decl}}
+PropOf(S0, name) == S0.props[CHOOSE i \in 1..Len(S0.props) : S0.props[i].decl /\ S0.props[i].name = name]
 
 NumOK(S0, n) ==
   /\ (S0.lo # NONE => IF S0.xlo THEN n > S0.lo ELSE n >= S0.lo)
   /\ (S0.hi # NONE => IF S0.xhi THEN n < S0.hi ELSE n <= S0.hi)
   /\ (S0.mult # NONE => n % S0.mult = 0)
 
+\* null beside an enum: the enum has to list it
+NullListed(S0) == S0.k = "enum" => \E i \in 1..Len(S0.vals) : S0.vals[i] = Null
 RECURSIVE V(_, _, _)
 \* root: the schema `self` refers to
 V(root, S0, v) ==
   CASE S0.k = "any" -> TRUE
     [] S0.k = "self" -> V(root, root, v)
-    [] S0.k = "nullable" -> v.t = "null" \/ V(root, S0.s, v)
+    [] S0.k = "nullable" -> IF v.t = "null" THEN NullListed(S0.s) ELSE V(root, S0.s, v)
     [] S0.k = "enum" -> (\E i \in 1..Len(S0.vals) : S0.vals[i] = v) /\ V(root, S0.s, v)
     [] S0.k = "bool" -> v.t = "bool"
     [] S0.k = "str" -> v.t = "str" /\ Len(v.s) >= S0.minL /\ (S0.maxL # NONE => Len(v.s) <= S0.maxL) /\ Pat(S0.pat, v.s)
@@ -75,34 +81,50 @@ Valid(S0, v) == V(S0, S0, v)
 (*   Dev_NullEmptyStructRefused:   nullable object without declared properties  *)
 (*     (an empty Go struct, boxed as a pointer because ir.Type.CanGeneric is     *)
 (*     false): gen/_template/json/decode.tmpl dec_pointer never accepts null     *)
+(*   Dev_NullableEnumAcceptsNull:  `nullable: true` beside an `enum` that does  *)
+(*     not list null: the generated Nil/OptNil wrapper accepts null without     *)
+(*     consulting the enum                                                       *)
+(*   Dev_RequiredUndeclaredNotEnforced: a name under `required` that is not     *)
+(*     declared under `properties` has no field and no bit in the required mask *)
+(*   Dev_SumVariantByMemberPresence: a oneOf over objects is decoded by the     *)
+(*     presence of members only one variant declares (encoders_sum.tmpl); an    *)
+(*     instance carrying such members of two variants is refused as "multiple   *)
+(*     oneOf matches" even when only one variant validates                       *)
 IsArrMin(S0) == S0.k = "arr" /\ S0.minI > 0
 IsEmptyStruct(S0) == S0.k = "obj" /\ S0.props = <<>> /\ S0.addl.k \in {"addl_true", "addl_false"}
 RECURSIVE VI(_, _, _, _)
 VI(root, S0, v, D) ==
   CASE S0.k = "any" -> TRUE
     [] S0.k = "self" -> VI(root, root, v, D)
-    [] S0.k = "nullable" -> IF v.t = "null" THEN ~("Dev_NullArrayLengthChecked" \in D /\ IsArrMin(S0.s)) /\ ~("Dev_NullEmptyStructRefused" \in D /\ IsEmptyStruct(S0.s)) ELSE VI(root, S0.s, v, D)
+    [] S0.k = "nullable" -> IF v.t = "null" THEN /\ ~("Dev_NullArrayLengthChecked" \in D /\ IsArrMin(S0.s)) /\ ~("Dev_NullEmptyStructRefused" \in D /\ IsEmptyStruct(S0.s))
+                                                 /\ ("Dev_NullableEnumAcceptsNull" \in D \/ NullListed(S0.s))
+                            ELSE VI(root, S0.s, v, D)
     [] S0.k = "enum" -> (\E i \in 1..Len(S0.vals) : S0.vals[i] = v) /\ VI(root, S0.s, v, D)
     [] S0.k \in {"bool", "str", "int", "num"} -> V(root, S0, v)
     [] S0.k = "arr" -> /\ v.t = "arr" /\ Len(v.v) >= S0.minI /\ (S0.maxI # NONE => Len(v.v) <= S0.maxI)
                        /\ (S0.uniq => \A i, j \in 1..Len(v.v) : i # j => v.v[i] # v.v[j])
                        /\ \A i \in 1..Len(v.v) : VI(root, S0.items, v.v[i], D)
     [] S0.k = "obj" -> /\ v.t = "obj"
-                       /\ \A i \in 1..Len(S0.props) : S0.props[i].req => S0.props[i].name \in Names(v.m)
+                       /\ \A i \in 1..Len(S0.props) : S0.props[i].req /\ (S0.props[i].decl \/ "Dev_RequiredUndeclaredNotEnforced" \notin D) => S0.props[i].name \in Names(v.m)
                        /\ \A i \in 1..Len(S0.props) :
                             (~S0.props[i].req /\ S0.props[i].name \notin Names(v.m) /\ IsArrMin(S0.props[i].s)) => "Dev_AbsentArrayLengthChecked" \notin D
                        /\ \A i \in 1..Len(v.m) :
                             \* an optional nullable property is an OptNil wrapper, whose null never reaches the array branch
                             IF v.m[i][1] \in PropNames(S0) THEN
                                  LET p == PropOf(S0, v.m[i][1]) IN
-                                 IF ~p.req /\ p.s.k = "nullable" /\ v.m[i][2].t = "null" THEN ~("Dev_NullEmptyStructRefused" \in D /\ IsEmptyStruct(p.s.s)) ELSE VI(root, p.s, v.m[i][2], D)
+                                 IF ~p.req /\ p.s.k = "nullable" /\ v.m[i][2].t = "null" THEN ~("Dev_NullEmptyStructRefused" \in D /\ IsEmptyStruct(p.s.s)) /\ ("Dev_NullableEnumAcceptsNull" \in D \/ NullListed(p.s.s)) ELSE VI(root, p.s, v.m[i][2], D)
                             ELSE IF S0.addl.k = "addl_true" THEN TRUE ELSE IF S0.addl.k = "addl_false" THEN FALSE ELSE VI(root, S0.addl, v.m[i][2], D)
                        /\ Len(v.m) >= S0.minP /\ (S0.maxP # NONE => Len(v.m) <= S0.maxP)
     [] S0.k = "allOf" -> \A i \in 1..Len(S0.ss) : VI(root, S0.ss[i], v, D)
     [] S0.k = "anyOf" -> \E i \in 1..Len(S0.ss) : VI(root, S0.ss[i], v, D)
-    [] S0.k = "oneOf" -> Cardinality({i \in 1..Len(S0.ss) : VI(root, S0.ss[i], v, D)}) = 1
+    [] S0.k = "oneOf" -> LET exact == Cardinality({i \in 1..Len(S0.ss) : VI(root, S0.ss[i], v, D)}) = 1
+                             \* members only variant i declares
+                             U(i) == PropNames(S0.ss[i]) \ UNION {PropNames(S0.ss[j]) : j \in (1..Len(S0.ss)) \ {i}}
+                             claimed == {i \in 1..Len(S0.ss) : U(i) \cap Names(v.m) # {}} IN
+                         IF "Dev_SumVariantByMemberPresence" \in D /\ v.t = "obj" /\ (\A i \in 1..Len(S0.ss) : S0.ss[i].k = "obj") /\ Cardinality(claimed) >= 2
+                         THEN FALSE ELSE exact
 ImplValid(S0, v, D) == VI(S0, S0, v, D)
-Deviations == {"Dev_AbsentArrayLengthChecked", "Dev_NullArrayLengthChecked", "Dev_NullEmptyStructRefused"}
+Deviations == {"Dev_AbsentArrayLengthChecked", "Dev_NullArrayLengthChecked", "Dev_NullEmptyStructRefused", "Dev_NullableEnumAcceptsNull", "Dev_RequiredUndeclaredNotEnforced", "Dev_SumVariantByMemberPresence"}
 
 (**************************** schema constructors **************************)
 AnyS == [k |-> "any"]
@@ -111,7 +133,9 @@ Str(minL, maxL, pat) == [k |-> "str", minL |-> minL, maxL |-> maxL, pat |-> pat]
 IntS(lo, hi, xlo, xhi, mult) == [k |-> "int", lo |-> lo, hi |-> hi, xlo |-> xlo, xhi |-> xhi, mult |-> mult]
 Num(lo, hi, xlo, xhi, mult) == [k |-> "num", lo |-> lo, hi |-> hi, xlo |-> xlo, xhi |-> xhi, mult |-> mult]
 Arr(items, minI, maxI, uniq) == [k |-> "arr", items |-> items, minI |-> minI, maxI |-> maxI, uniq |-> uniq]
-P(name, s, req) == [name |-> name, s |-> s, req |-> req]
+P(name, s, req) == [name |-> name, s |-> s, req |-> req, decl |-> TRUE]
+\* a name listed under `required` that `properties` does not declare
+PH(name) == [name |-> name, s |-> [k |-> "any"], req |-> TRUE, decl |-> FALSE]
 Obj(props, addl, minP, maxP) == [k |-> "obj", props |-> props, addl |-> addl, minP |-> minP, maxP |-> maxP]
 Nullable(s) == [k |-> "nullable", s |-> s]
 Enum(vals, s) == [k |-> "enum", vals |-> vals, s |-> s]
@@ -129,10 +153,14 @@ AnyNum == Num(NONE, NONE, FALSE, FALSE, NONE)
 
 (******************************* schema domain *****************************)
 StrSchemas == {AnyStr, Str(2, NONE, ""), Str(0, 2, ""), Str(1, 2, ""), Str(0, 0, ""), Str(0, NONE, "^a+$"), Str(0, NONE, "b"), Str(2, 2, "^a+$"),
-               Enum(<<S(<<"a">>), S(<<"b", "b">>)>>, AnyStr), Nullable(AnyStr), Nullable(Str(2, NONE, "")), Nullable(Enum(<<S(<<"a">>), Null>>, AnyStr))}
+               Enum(<<S(<<"a">>), S(<<"b", "b">>)>>, AnyStr), Nullable(AnyStr), Nullable(Str(2, NONE, "")), Nullable(Enum(<<S(<<"a">>), Null>>, AnyStr)),
+               \* nullable beside an enum that does not list null
+               Nullable(Enum(<<S(<<"a">>), S(<<"b">>)>>, AnyStr))}
 IntSchemas == {AnyInt, IntS(10, NONE, FALSE, FALSE, NONE), IntS(NONE, 30, FALSE, FALSE, NONE), IntS(10, 30, TRUE, FALSE, NONE), IntS(10, 30, FALSE, TRUE, NONE),
                IntS(10, 30, TRUE, TRUE, NONE), IntS(NONE, NONE, FALSE, FALSE, 20), IntS(0, 40, FALSE, FALSE, 20), Enum(<<N(10), N(30)>>, AnyInt), Nullable(AnyInt),
-               IntS(0 - 10, 10, FALSE, FALSE, NONE)}
+               IntS(0 - 10, 10, FALSE, FALSE, NONE),
+               \* a divisor that is not a power of two, against negative instances
+               IntS(NONE, NONE, FALSE, FALSE, 30), IntS(0 - 30, NONE, FALSE, FALSE, 20), Nullable(Enum(<<N(10), N(30)>>, AnyInt))}
 NumSchemas == {AnyNum, Num(5, NONE, FALSE, FALSE, NONE), Num(NONE, 15, FALSE, FALSE, NONE), Num(5, 15, TRUE, TRUE, NONE), Num(NONE, NONE, FALSE, FALSE, 5),
                Num(NONE, NONE, FALSE, FALSE, 1), Num(NONE, NONE, FALSE, FALSE, 15), Enum(<<N(5), N(10)>>, AnyNum), Nullable(Num(5, 15, FALSE, FALSE, NONE))}
 ArrSchemas == {Arr(AnyStr, 0, NONE, FALSE), Arr(AnyInt, 1, NONE, FALSE), Arr(AnyStr, 0, 1, FALSE), Arr(AnyInt, 1, 2, TRUE), Arr(AnyStr, 0, NONE, TRUE),
@@ -154,7 +182,17 @@ ObjSchemas == {Obj(<<PA, PBo>>, AT, 0, NONE), Obj(<<PA, PBo>>, AF, 0, NONE), Obj
                Obj(<<P("a", AnyInt, TRUE), P("c", Self, FALSE)>>, AF, 0, NONE)}
 ObjA == Obj(<<P("a", AnyStr, TRUE)>>, AF, 0, NONE)
 ObjB == Obj(<<P("b", AnyInt, TRUE)>>, AF, 0, NONE)
-SumSchemas == {OneOf(<<AnyStr, AnyInt>>), OneOf(<<Str(2, NONE, ""), IntS(10, NONE, FALSE, FALSE, NONE), Bool>>), OneOf(<<ObjA, ObjB>>), OneOf(<<AnyStr, Arr(AnyInt, 0, NONE, FALSE)>>),
+ObjAo == Obj(<<P("a", AnyStr, TRUE)>>, AT, 0, NONE)
+ObjBo == Obj(<<P("b", AnyInt, TRUE)>>, AT, 0, NONE)
+SumSchemas == {OneOf(<<AnyStr, AnyInt>>),
+               \* variants told apart by their required member only: an instance with both is in both
+               OneOf(<<ObjAo, ObjBo>>), OneOf(<<Obj(<<P("a", AnyStr, TRUE), P("c", Bool, FALSE)>>, AT, 0, NONE), Obj(<<P("b", AnyInt, TRUE), P("c", Bool, FALSE)>>, AT, 0, NONE)>>),
+               \* allOf over primitives: every bound of every member applies
+               AllOf(<<IntS(NONE, 30, FALSE, TRUE, NONE), IntS(0, NONE, FALSE, FALSE, NONE)>>), AllOf(<<IntS(10, NONE, TRUE, FALSE, NONE), IntS(NONE, 30, FALSE, FALSE, NONE)>>),
+               AllOf(<<Num(NONE, 15, FALSE, TRUE, NONE), Num(5, NONE, TRUE, FALSE, NONE)>>), AllOf(<<Str(1, NONE, ""), Str(0, 2, "")>>),
+               AllOf(<<Arr(AnyInt, 1, NONE, FALSE), Arr(AnyInt, 0, 2, TRUE)>>),
+               \* required names that properties does not declare
+               Obj(<<P("a", AnyStr, FALSE), PH("c")>>, AT, 0, NONE), Obj(<<PH("b")>>, AT, 0, NONE), OneOf(<<Str(2, NONE, ""), IntS(10, NONE, FALSE, FALSE, NONE), Bool>>), OneOf(<<ObjA, ObjB>>), OneOf(<<AnyStr, Arr(AnyInt, 0, NONE, FALSE)>>),
                AnyOf(<<AnyStr, AnyInt>>), AnyOf(<<Str(0, 1, ""), AnyNum>>), OneOf(<<ObjA, AnyStr>>), Nullable(OneOf(<<AnyStr, AnyInt>>)),
                AllOf(<<Obj(<<P("a", AnyStr, TRUE)>>, AT, 0, NONE), Obj(<<P("b", AnyInt, TRUE)>>, AT, 0, NONE)>>),
                AllOf(<<Obj(<<P("a", AnyStr, TRUE)>>, AT, 0, NONE), Obj(<<P("b", AnyInt, FALSE), P("c", Bool, TRUE)>>, AT, 0, NONE)>>)}
@@ -164,7 +202,7 @@ Wide(n) == Obj([i \in 1..n |-> P(Letters[i], AnyInt, i \in {1, 8, 9, n})], AF, 0
 Schemas == StrSchemas \cup IntSchemas \cup NumSchemas \cup ArrSchemas \cup ObjSchemas \cup SumSchemas \cup {Bool, Nullable(Bool), AnyS, Wide(9), Wide(17)}
 
 (****************************** instance domain ****************************)
-Leaves == {Null, B(TRUE), B(FALSE), N(0), N(10), N(20), N(30), N(40), N(5), N(15), N(1), N(0 - 10), S(<<>>), S(<<"a">>), S(<<"a", "a">>), S(<<"a", "a", "a">>), S(<<"b">>), S(<<"a", "b">>), S(<<"b", "b">>), S(<<"e">>)}
+Leaves == {Null, B(TRUE), B(FALSE), N(0), N(10), N(20), N(30), N(40), N(5), N(15), N(1), N(0 - 10), N(0 - 20), N(0 - 30), N(0 - 60), N(0 - 160), S(<<>>), S(<<"a">>), S(<<"a", "a">>), S(<<"a", "a", "a">>), S(<<"b">>), S(<<"a", "b">>), S(<<"b", "b">>), S(<<"e">>)}
 Small == {Null, N(10), N(5), S(<<"a">>), S(<<"a", "a">>), N(20)}
 Arrays == {A(<<>>)} \cup {A(<<x>>) : x \in Leaves} \cup {A(<<x, y>>) : x \in Small, y \in Small} \cup {A(<<N(10), N(20), N(30)>>), A(<<A(<<N(10)>>)>>), A(<<A(<<N(10), N(20)>>)>>), A(<<S(<<"a">>), S(<<"a">>), S(<<"b">>)>>)}
 Keys == {"a", "b", "c"}
